@@ -49,9 +49,27 @@ pub(crate) fn restore_disclosures(
     disclosure_paths: &mut Vec<DisclosurePath>,
     algorithm: HashAlgorithm,
 ) -> Result<(), Error> {
-    for disclosure in disclosures {
-        let decoded_disclosure = Disclosure::from_base64(disclosure, algorithm)?;
-        restore_disclosure(claims, &decoded_disclosure, String::new(), disclosure_paths)?;
+    let mut pending = disclosures
+        .iter()
+        .map(|disclosure| Disclosure::from_base64(disclosure, algorithm))
+        .collect::<Result<Vec<Disclosure>, Error>>()?;
+
+    // the digest of a nested disclosure only becomes visible once its enclosing disclosure
+    // is restored, so keep going over the remaining ones until a pass restores nothing
+    loop {
+        let mut remaining = Vec::new();
+        let mut progress = false;
+        for disclosure in pending {
+            if restore_disclosure(claims, &disclosure, String::new(), disclosure_paths)? {
+                progress = true;
+            } else {
+                remaining.push(disclosure);
+            }
+        }
+        pending = remaining;
+        if !progress || pending.is_empty() {
+            break;
+        }
     }
 
     Ok(())
